@@ -1,6 +1,7 @@
 import Bifrost.Model.Packets
 import Bifrost.Gen.Limits
 import Bifrost.Lemmas.Framing
+import Bifrost.Lemmas.Writers
 /-!
 C09 — Buffered connection never silently loses or reorders bytes (`rwc.Conn`).
 -/
@@ -58,6 +59,86 @@ theorem all_bytes_delivered (k : Nat) (hk : 0 < k) (cs : Reader) (bufs : List Na
     ((connReads (connPump k cs) bufs).map (·.1)).flatten = cs.flatten := by
   have hq : ∀ p ∈ connPump k cs, p.length ≤ k := fun p hp => (connPump_sizes k hk cs p hp).2
   rw [connReads_big_fst k _ bufs hq hb, List.take_of_length_le hn, connPump_flatten k cs]
+
+/-! ### `Conn.Write` loops until all bytes are written -/
+
+/-- Whatever the underlying writer does on each call (accept any number of bytes, report an
+error or not), what reaches it is always a prefix of the packet, in order — nothing is
+duplicated, skipped or reordered — and the count returned is the length of that prefix. A nil
+error means the WHOLE packet was written; an error is reported only if some underlying call
+reported one, with the count of bytes written up to and including that call. -/
+theorem write_all_or_error (script : List (Nat × Bool)) (pkt : Bytes) :
+    (connWrite script pkt).2 <+: pkt ∧
+    (match (connWrite script pkt).1 with
+     | .ok n => (connWrite script pkt).2 = pkt ∧ n = pkt.length
+     | .err n => (connWrite script pkt).2 = pkt.take n ∧ n ≤ pkt.length ∧ ∃ s ∈ script, s.2 = true
+     | .spin => (connWrite script pkt).2.length < pkt.length) := by
+  obtain ⟨t, h1, h2⟩ := connWriteLoop_spec script pkt [] 0
+  unfold connWrite
+  rw [h1]
+  refine ⟨by simpa using List.take_prefix t pkt, ?_⟩
+  revert h2
+  generalize (connWriteLoop script pkt [] 0).1 = r
+  cases r with
+  | ok n =>
+    intro ⟨ha, hb⟩
+    exact ⟨by simpa using List.take_of_length_le hb, by omega⟩
+  | err n =>
+    intro ⟨ha, hb, hc⟩
+    have : n = t := by omega
+    subst this
+    exact ⟨by simp, hb, hc⟩
+  | spin =>
+    intro ⟨_, hb⟩
+    simp only [List.nil_append, List.length_take]
+    omega
+
+/-- For EVERY acceptance pattern in which each call takes at least one byte and none fails
+(1 byte per call, 7 per call, 2047/2048/2049 per call, any mix), the loop ends with all bytes
+written, in order, and reports `len(pkt), nil`. -/
+theorem write_completes (script : List (Nat × Bool)) (pkt : Bytes)
+    (hs : ∀ s ∈ script, 1 ≤ s.1 ∧ s.2 = false) (hl : pkt.length ≤ script.length) :
+    connWrite script pkt = (.ok pkt.length, pkt) := by
+  have h := connWriteLoop_progress script pkt [] 0 hs hl
+  have h2 := write_all_or_error script pkt
+  unfold connWrite at h2 ⊢
+  rw [h] at h2
+  simp only [Nat.zero_add] at h h2
+  exact Prod.ext h h2.2.1
+
+/-! ### End of stream -/
+
+/-- A connection whose underlying reader has ended with error `e` (`none` = EOF): read number
+`i` returns queued data exactly while `i` is below the number of queued pieces, and reports the
+end condition — the underlying error itself, or EOF — exactly from then on, on every later
+read. The error is never reported before the buffered bytes are drained, and never replaced. -/
+theorem end_reported_after_drain (k : Nat) (cs : Reader) (e : Option Nat) (bufs : List Nat)
+    (i : Nat) (hi : i < bufs.length) :
+    (connReadsEnd (connPump k cs) e bufs)[i]? =
+      if h : i < (connPump k cs).length then
+        some (.data ((connPump k cs)[i].take bufs[i]) (decide (bufs[i] < (connPump k cs)[i].length)))
+      else some (.ended e) :=
+  connReadsEnd_getElem? (connPump k cs) e bufs i hi
+
+/-- Until the end is reported the reads are exactly those of the running connection
+(`connReads`), so everything proved above about order and loss applies to them. -/
+theorem end_reads_extend_reads (q : List Bytes) (e : Option Nat) (bufs : List Nat) :
+    (connReadsEnd q e bufs).take q.length =
+      (connReads q bufs).map (fun r => ReadRes.data r.1 r.2) := by
+  induction bufs generalizing q with
+  | nil => cases q <;> simp [connReadsEnd, connReads]
+  | cons b bs ih =>
+    cases q with
+    | nil => simp [connReadsEnd, connReads]
+    | cons p q' => simp [connReadsEnd, connReads, ih q']
+
+/-- Non-vacuity: a writer taking 2, then 0, then 3 bytes; one failing at the second call; a
+reader ending with error 5 after two pieces. -/
+example : connWrite [(2, false), (0, false), (3, false)] [1, 2, 3, 4] = (.ok 4, [1, 2, 3, 4]) ∧
+    connWrite [(2, false), (1, true), (3, false)] [1, 2, 3, 4] = (.err 3, [1, 2, 3]) ∧
+    connReadsEnd (connPump 4 [[1, 2, 3, 4, 5]]) (some 5) [10, 10, 10, 10]
+      = [.data [1, 2, 3, 4] false, .data [5] false, .ended (some 5), .ended (some 5)] := by
+  decide
 
 /-- Non-vacuity (pump buffer 4): a 5-byte chunk is split 4+1; a zero-size read loses with notice. -/
 example : connReads (connPump 4 [[1, 2, 3, 4, 5], [6]]) [10, 10, 0]
